@@ -17,8 +17,9 @@ TRUSTED = ["cv2.findContours is a black box: no model of it is attempted; what F
            "tables restricted to the artefact's neighbourhood, and the harness checks that nothing outside it changed); for three parses per run (meshes of at most 900 pixels) the "
            "grouping of the artefact vertices, the state after all contractions and the mesh create_lattice returns (after the removal of isolated cells) = `artefacts` / `clean_up` / "
            "`finish_lattice` of the model on the whole state (five parses per run, meshes of at most 900 pixels), and the state the clean-up starts from = `mesh_of_lattice (lattice contours)` - "
-           "so that on those parses create_lattice is modelled end to end from the kept contours to the returned mesh; the inner-triangle pass, which runs before the artefact search on about one "
-           "parse in twenty, is not modelled (such parses are tied from the artefact search on)",
+           "and the inner-triangle pass (`inner_triangles`: Counter's first-occurrence order, setdiff1d, deletion under a live iterator) on the snapshot taken when create_lattice calls "
+           "create_edges_new, with the external flags (set between that call and the pass) recomputed by the harness: on those parses create_lattice is modelled end to end, "
+           "`create_lattice_full`, from the kept contours to the returned mesh (six parses per run, at most two per image and symmetry)",
            "expected topology of the generated images comes from the lattice generator, not from forsys"]
 ASSUMPTIONS = ["generated images follow the convention of the shipped ones: white frame on the image border, skeleton not touching it; framed images are also padded "
                "literally (frame inside the picture), where tissues of few cells fall under known finding D26"]
@@ -159,6 +160,8 @@ def expected_of_spec(spec):
 # ------------------------------------------------------------------ the artefact clean-up against Model/SkeletonT3.v
 T3REC = []          # records of this run: ("ga", pre, result) / ("t3", pre, artefact, post, label)
 T3CAP = {"t3": 24, "ga": 5}
+T3CUR = {}          # the Skeleton being parsed (create_edges_new is a module function and does not see it)
+T3RAW = {}          # id(skeleton) -> snapshot taken when create_lattice calls create_edges_new (before flags and clean-up)
 
 
 def _snap(S):
@@ -193,14 +196,29 @@ class t3_recorder:
 
         def rec_ga(sk_):
             r = o_ga(sk_)
-            if sum(1 for x in T3REC if x[0] == "ga") < T3CAP["ga"] and len(sk_.vertices) <= 900:
-                T3REC.append(("ga", _snap(sk_), [int(a) for a in r], {"sk": id(sk_), "groups": [], "final": None}))
+            if sum(1 for x in T3REC if x[0] == "ga") < T3CAP["ga"] and len(sk_.vertices) <= 900 and \
+                    sum(1 for x in T3REC if x[0] == "ga" and x[3].get("key") == T3CUR.get("key")) < 2:
+                T3REC.append(("ga", _snap(sk_), [int(a) for a in r], {"sk": id(sk_), "groups": [], "final": None, "raw": T3RAW.pop(id(sk_), None), "key": T3CUR.get("key")}))
             return r
         cls.do_t3_transition, cls.get_artifacts = rec_t3, rec_ga
+        mod = impl.fs.skeleton.fvedges
+        self.mod, self.o_cen = mod, mod.create_edges_new
+        o_cen = self.o_cen
+
+        def rec_cen(vertices, cells):
+            sk_ = T3CUR.get("sk")
+            if sk_ is not None and vertices is sk_.vertices and len(vertices) <= 900 and sum(1 for x in T3REC if x[0] == "ga") < T3CAP["ga"] and \
+                    sum(1 for x in T3REC if x[0] == "ga" and x[3].get("key") == T3CUR.get("key")) < 2:
+                T3RAW.clear()
+                T3RAW[id(sk_)] = _snap(sk_)
+            return o_cen(vertices, cells)
+        mod.create_edges_new = rec_cen
         return self
 
     def __exit__(self, *a):
         self.cls.do_t3_transition, self.cls.get_artifacts = self.o_t3, self.o_ga
+        self.mod.create_edges_new = self.o_cen
+        T3CUR.clear()
         return False
 
 
@@ -226,10 +244,20 @@ def t3_cases(res, exprs):
             if whole["final"] is not None:
                 e_ += f" && mesh_eqb (clean_up m) {_mesh_lit(whole['final'])}"
                 res.count("whole clean-up pass (all contractions of a parse) against Model/SkeletonT3.v")
+            start = "m"
+            if whole.get("raw") is not None:
+                # the state before the inner-triangle pass; the external flags are set between the snapshot and the pass: an end in one cell only
+                raw = whole["raw"]
+                raw = dict(raw, edges={k: (a, b, len(raw["ownC"][a]) == 1 or len(raw["ownC"][b]) == 1) for k, (a, b, _) in raw["edges"].items()})
+                e_ = f"let raw := {_mesh_lit(raw)} in " + e_ + " && mesh_eqb (inner_triangles raw) m"
+                start = "raw"
+                res.count("inner-triangle pass against Model/SkeletonT3.v")
+                if len(raw["verts"]) != len(pre["verts"]):
+                    res.count("parse in which the inner-triangle pass removed a vertex")
             if whole.get("contours") is not None:
                 cl_ = "[" + "; ".join("[" + "; ".join(f"({p[0]}, {p[1]})" for p in c_) + "]" for c_ in whole["contours"]) + "]"
-                e_ += f" && mesh_eqb (mesh_of_lattice (Skeleton.lattice {cl_})) m"
-                res.count("state the clean-up starts from = mesh_of_lattice of the kept contours (end to end with Model/Skeleton.v)")
+                e_ += f" && mesh_eqb (mesh_of_lattice (Skeleton.lattice {cl_})) {start}"
+                res.count("state create_lattice starts from = mesh_of_lattice of the kept contours (end to end with Model/Skeleton.v)")
             if whole.get("returned") is not None:
                 e_ += f" && mesh_eqb (finish_lattice m) {_mesh_lit(whole['returned'])}"
                 res.count("returned mesh = finish_lattice of the model (contractions, then removal of isolated cells)")
@@ -276,12 +304,15 @@ def observe(path, mirror_y, ne):
     with impl.quiet(), t3_recorder():
         sk = impl.fs.skeleton.Skeleton(path, mirror_y=mirror_y)
         contours = [np.array(c) for c in sk.contours]
+        T3CUR["sk"] = sk
+        T3CUR["key"] = "_".join(os.path.basename(path).split("_")[:2])      # image and symmetry: at most two whole-state records each
         v, e, c = sk.create_lattice()
         for r_ in T3REC:
             if r_[0] == "ga" and r_[3]["sk"] == id(sk):
                 r_[3]["returned"] = _snap(sk)      # what create_lattice returns: after the removal of isolated cells
-                if not mirror_y and len(r_[1]["verts"]) == sk.vertex_id and len(r_[1]["edges"]) == sk.edge_id and len(r_[1]["cells"]) == sk.cell_id:
-                    r_[3]["contours"] = [[(int(p[0]), int(p[1])) for p in c_] for c_ in contours]   # the inner-triangle pass removed nothing
+                if not mirror_y and (r_[3].get("raw") is not None or
+                                     (len(r_[1]["verts"]) == sk.vertex_id and len(r_[1]["edges"]) == sk.edge_id and len(r_[1]["cells"]) == sk.cell_id)):
+                    r_[3]["contours"] = [[(int(p[0]), int(p[1])) for p in c_] for c_ in contours]
                 r_[3]["sk"] = None                 # (the id may be re-used by a later object)
     with impl.quiet():
         raw = {"vertices": int(sk.vertex_id), "cells": int(sk.cell_id), "cycles": [[w.id for w in cc.vertices] for cc in c.values()],
@@ -435,7 +466,7 @@ def run(res, tier, seed):
     rng = np.random.default_rng(seed)
     exprs = []
     del T3REC[:]
-    T3CAP.update({"t3": 24, "ga": 5} if tier == "quick" else {"t3": 120, "ga": 16})
+    T3CAP.update({"t3": 24, "ga": 6} if tier == "quick" else {"t3": 120, "ga": 24})
     syms_quick = [SYMS[0], SYMS[int(rng.integers(1, 8))]]
     shapes = [(2, 2, "square"), (3, 3, "square"), (2, 2, "hex"), (3, 3, "hex"), (4, 3, "square"), (4, 4, "hex")] if tier == "quick" else \
         [(2, 2, "square"), (1, 4, "square"), (3, 3, "square"), (5, 4, "square"), (7, 6, "square"), (2, 2, "hex"), (3, 2, "hex"), (3, 3, "hex"), (5, 4, "hex"), (7, 8, "hex")]
@@ -448,7 +479,12 @@ def run(res, tier, seed):
         else:
             inner = lattice_image(nx, ny, kind, px)
             exp = expected_lattice(nx, ny, kind)
-        check_image(res, inner, exp, rng, exprs, f"{kind}{nx}x{ny}", SYMS if tier != "quick" else syms_quick)
+        syms_here = SYMS if tier != "quick" else syms_quick
+        if tier == "quick" and (nx, ny, kind) == (2, 2, "square") and not any(n_ in ("rot90", "transpose") for n_, _ in syms_here):
+            # the transposed / quarter-turned 2 x 2 square image is where OpenCV's tracing makes the inner-triangle pass and the removal of
+            # isolated cells do something: always parsed, so that every run ties those passes while they are active
+            syms_here = syms_here + [SYMS[6]]
+        check_image(res, inner, exp, rng, exprs, f"{kind}{nx}x{ny}", syms_here)
     # a honeycomb of 36..44 pixel wide cells whose vertical sides consist of 9 pixels (ridges longer than 8 pixels), resampled with ne
     # equal to the number of vertices of one of its interfaces (the boundary case of 'at most ne segments')
     a_s, b_s = int(rng.integers(18, 23)), 8
